@@ -425,7 +425,8 @@ func getOffer(header []byte, isAccepted func(spec, offer string, specParams head
 			// Optimized quality parsing
 			qIndex := i + 3
 			if bytes.HasPrefix(accept[i:], []byte(";q=")) && bytes.IndexByte(accept[qIndex:], ';') == -1 {
-				if q, err := fasthttp.ParseUfloat(accept[qIndex:]); err == nil {
+				// optional whitespace may follow the q-value before the next list delimiter
+				if q, err := fasthttp.ParseUfloat(utils.TrimRight(accept[qIndex:], ' ')); err == nil {
 					quality = q
 				}
 			} else {
